@@ -109,6 +109,10 @@ func (fr *Frame) callFn(st *State, fn *ssa.Function, args []Value, deferOf int) 
 		return m(fr, st, args, fn.Signature)
 	}
 	ctr := v.contractFor(fn)
+	if ctr == nil && isPureName(full) {
+		// logging / formatting / metrics: no effect on heap or ghost state (assumed), body not entered
+		return fr.unknownCall(st, full, fn.Signature, args, false)
+	}
 	inRepo := strings.HasPrefix(fnPkgPath(fn), modulePath)
 	if ctr != nil && !ctr.Inline {
 		ctr.used = true
@@ -540,6 +544,18 @@ func (fr *Frame) applyContract(st *State, ctr *Contract, name string, sig *types
 	res := fr.freshResults(st, sig, short)
 	bindResults(vars, res)
 	fr.callRes[fmt.Sprintf("%s#%d", short, nth)] = res
+	if ctr.Kind != "func" || ctr.Trusted {
+		// environment choice: part of a counterexample
+		nm := short
+		if i := strings.LastIndex(nm, "."); i >= 0 {
+			nm = nm[i+1:]
+		}
+		rv := map[string]Value{}
+		for i, r := range res {
+			rv[fmt.Sprintf("env:%s#%d.r%d", nm, nth, i)] = r
+		}
+		st.extRes = append(st.extRes, st.flattenVars(rv)...)
+	}
 	var outs []Outcome
 	if ctr.MayPanic {
 		ps := st.clone()
